@@ -20,7 +20,7 @@ CMDS = ["address", "export", "public-key", "sign-message", "sign-transaction", "
 REQUIRED = (["ok-" + c for c in CMDS] + ["selector-default", "selector-index-nonzero", "selector-index-2^31-1", "selector-path", "password-nonempty",
             "flags-vs-env-identical", "both-selectors-flag+flag-refused", "both-selectors-flag+env-refused", "both-selectors-env+env-refused",
             "input-file", "input-stdin", "sign-raw-digest>=n-valid", "input-stdin>64KiB", "flag-beats-environment",
-            "explicit-empty-password-flag-beats-environment", "big-input-same-through-all-channels", "decoy-keys-ignored-by-sign-and-hash"])
+            "explicit-empty-password-flag-beats-environment", "big-input-same-through-all-channels", "decoy-keys-judged"])
 
 
 def expected_sig_text(key, digest):
@@ -155,14 +155,14 @@ def judge_decoy_pair(case, obs):
             xm["decoys"], h["exit"], s["exit"], (s["stderr"] or h["stderr"])[-120:]))
     if h["exit"] != 0:
         v.nontrivial = False
-        return v.bucket("decoy-keys-rejected-by-both")
+        return v.bucket("decoy-keys-rejected-by-both").bucket("decoy-keys-judged")
     tx = txgen.tx_from_meta(xm["tx"])
     hd = reftx.signing_hash(tx)
     key = int(xm["key"], 16)
     r, s_, par, _ = secp.sign_rfc6979(key, hd)
     if h["stdout"].strip() != "0x" + hd.hex() or s["stdout"].strip() != "0x" + reftx.signed_bytes(tx, r, s_, par).hex():
         return v.bad("C16/decoy-keys/changed-the-result", "foreign keys %s changed what is hashed / signed" % xm["decoys"])
-    return v.bucket("decoy-keys-ignored-by-sign-and-hash")
+    return v.bucket("decoy-keys-ignored-by-sign-and-hash").bucket("decoy-keys-judged")
 
 
 JUDGES = {"cmd": judge_cmd, "conflict": judge_conflict, "same": judge_same_output, "decoy": judge_decoy_pair}
